@@ -652,7 +652,7 @@ PROPERTIES = {
         "assumptions": ["the parser is an oracle of the model: its syntax-error count and node count are inputs of the load decision",
                         "never-panics inside the ANTLR runtime, generated parser and tree builder is sampled, not proved"],
         "rule": "load/mixed+bytes: valid generated scripts in random layouts, 1-3 byte/line/fragment-level mutations of them (delete, overwrite, swap, truncate, duplicate, unbalanced if, mixed tabs and spaces), fragment assemblies and raw bytes incl. NUL and invalid UTF-8; every case split across 0-3 readers (none, at node boundaries, anywhere, plus a valid second reader) with seed strings over valid and invalid alphabets, empty and wrapping int64; distinct by (oracle values, outcome)",
-        "leanchecker": ["Ysgo.Props.C05"],
+        "leanchecker": ["Ysgo.Props.C05", "Ysgo.Props.C05Facts", "Ysgo.Props.C01Listener"],
     },
     "C06": runprop("faults", (), (), 2000, 80000,
                    extra_streams=[{"stream": "bridge", "profile": "sample", "quick": 5000, "thorough": 100000, "predicate": no_panic,
@@ -747,6 +747,7 @@ PROPERTIES = {
 # decides it) — listed in the evidence next to the theorems
 _FACTS = {
     "C03": ["Generated.StateFacts.storerOps (tools/statefacts): what the setters and Clear of InMemoryStorer do to the three maps == Props/C03Facts (setters_keep_one_type, clear_resets_every_map)"],
+    "C05": ["Generated.StateFacts.loadSteps (tools/statefacts): FromReader attaches the collecting error listener before anything is lexed and walks only after the early return on errors (Props/C05Facts)"],
     "C06": ["Generated.NumFacts.guardSrc (tools/numfacts): refusal conditions of checkedDice/checkedRandomRange == the model's guards under int64 wrap-around (Props/C09Facts)"],
     "C07": ["Generated.StateFacts (tools/statefacts): every DialogueRunner field written after construction is written by RestoreAt; method-mutated fields are the model's containers (Props/C07Facts)"],
     "C09": ["Generated.NumFacts.guardSrc / rngSrc (tools/numfacts): guards, radix, toRadix36, seed accumulation step, IntBetween == the model (Props/C09Facts)"],
